@@ -246,6 +246,7 @@ def _stack_sites(P, n):
 def Vmap(P, n, in_axes=0, args=None):
     """in_axes: int/None/tuple per arg (as the public API)."""
     axes = in_axes if isinstance(in_axes, tuple) else (in_axes,) * len(P.args)
+    axes = tuple(0 if isinstance(ax, tuple) else ax for ax in axes)  # nested in_axes in the catalogue are all-zero tuples
     if args is None:
         args = tuple(jnp.stack([a + 0.25 * i if jnp.issubdtype(jnp.asarray(a).dtype, jnp.floating) else a for i in range(n)], axis=ax) if ax is not None else a
                      for a, ax in zip(P.args, axes))
